@@ -11,7 +11,8 @@
 //	(2) decryption / de-armoring of valid and damaged files: the pair
 //	    (bytes released before the first error, error string) must equal the
 //	    baseline (bytes.Reader source, 32 KiB read buffer) for every delivery
-//	    schedule x read-buffer size; checked through age.Decrypt (binary and
+//	    schedule x read-buffer size or consumption mode (io.Copy, io.ReadAll);
+//	    checked through age.Decrypt (binary and
 //	    armored), armor.NewReader alone, internal/format.Parse and
 //	    internal/stream.NewReader driven directly, also with small
 //	    bufio.Readers handed in as the source.
@@ -23,6 +24,7 @@ package main
 import (
 	"fmt"
 	"os"
+	"sync"
 	"sync/atomic"
 	"time"
 
@@ -37,7 +39,11 @@ const (
 )
 
 type monitor struct {
-	r *mon.Run
+	r       *mon.Run
+	aligned int
+
+	gmu    sync.Mutex
+	groups map[groupKey]*group
 
 	maxHeld     atomic.Int64 // largest plaintext hold-back seen after a Write
 	maxArmorLag atomic.Int64 // largest armor-writer lag seen after a Write
@@ -63,6 +69,8 @@ func main() {
 		"with the baseline; distinct by that tuple"
 	r.Assumptions = []string{
 		"plaintext lengths up to 6 chunks (400 000 bytes); unbounded sizes are not explored",
+		"the plaintext reader is consumed by Read loops with 8 buffer sizes, by io.Copy into a plain Writer (uses a WriteTo of the reader if there is one) and by io.ReadAll",
+		"a result that differs from the baseline under every delivery schedule it was run with is reported once with sched=* (the cause is then the consumption mode / buffer / handed-in bufio, not the schedule)",
 		"delivery schedules are those of mon.Schedules() (never (0,nil) reads, never transient source errors) plus two counted bufio schedules",
 		"ssh-rsa recipients are left out of the encryption sweep: crypto/rsa draws a data-independent random number of tape bytes (randutil.MaybeReadByte)",
 		"hold-back is measured at the destination handed to age.Encrypt; the armor writer's own lag is bounded separately by one 48-byte line",
@@ -76,7 +84,7 @@ func main() {
 	} else {
 		r.Set("reference_self_check_vectors", nv)
 	}
-	m := &monitor{r: r}
+	m := &monitor{r: r, groups: map[groupKey]*group{}}
 
 	// Serial phase: everything that encrypts runs under the process-global tap.
 	t0 := time.Now()
@@ -96,8 +104,8 @@ func main() {
 
 	r.Set("max_plaintext_held_back_after_a_write", m.maxHeld.Load())
 	r.Set("max_armor_writer_lag_bytes", m.maxArmorLag.Load())
-	r.Set("max_source_bytes_beyond_last_released_chunk", m.maxAhead.Load())
-	r.Set("read_ahead_checks_on_files_longer_than_bound", m.binding.Load())
+	r.Set("max_source_bytes_consumed_beyond_the_chunks_released", m.maxAhead.Load())
+	r.Set("read_ahead_checks_where_the_source_was_longer_than_the_allowance", m.binding.Load())
 	if m.binding.Load() == 0 {
 		r.Inconclusive("no read-ahead check was binding (no file longer than the bound)")
 	}
